@@ -189,11 +189,12 @@ Example C12_update_example :
   /\ exists r, update true ex_base ex_overlay = Some r /\ ylookup "class" r = Some YNull.
 Proof. split; [reflexivity|]. eexists. split; reflexivity. Qed.
 
-(* the crash outcome of the model is reachable (outside wf): an empty mapping item in a base
-   `members` list makes list(base_item)[0] raise IndexError *)
-Example C12_update_crash :
-  update true (YMap [("members", YSeq [YMap []])]) (YMap [("members", YSeq [YMap [("a", YInt 1)]])]) = None.
-Proof. exact update_crash_witness. Qed.
+(* outside wf: an empty mapping item in a base `members` list is skipped (it raised IndexError
+   before the fix: commit 44a61d5 in /repo) *)
+Example C12_update_empty_base_item :
+  update true (YMap [("members", YSeq [YMap []])]) (YMap [("members", YSeq [YMap [("a", YInt 1)]])]) =
+  Some (YMap [("members", YSeq [YMap []; YMap [("a", YInt 1)]])]).
+Proof. exact update_empty_base_item. Qed.
 
 Example C12_include_cycle_example : forall fuel,
   is_cfgerr (process (3 + fuel) true false ex_fs ["d1"; "d2"] [] KErt
